@@ -90,7 +90,10 @@ Record FloatOps (F : Type) := mkFloatOps {
   f_pi : F;
   f_deg2rad : F;                   (* pi/180 *)
   f_rad2deg : F;                   (* 180/pi *)
-  f_fsum : list F -> F             (* math.fsum: exactly rounded sum *)
+  f_fsum : list F -> F;            (* math.fsum: exactly rounded sum *)
+  f_dom : libm_fn -> list F -> bool;   (* mathematical domain of a libm function (ideal instance);
+                                          binary64 instance: always true, errors show as NaN *)
+  f_call : val F -> list (val F) -> val F   (* calling a Python function value (basis functions) *)
 }.
 
 Arguments f_of_Z {F} _ _.
@@ -118,6 +121,8 @@ Arguments f_pi {F} _.
 Arguments f_deg2rad {F} _.
 Arguments f_rad2deg {F} _.
 Arguments f_fsum {F} _ _.
+Arguments f_dom {F} _ _ _.
+Arguments f_call {F} _ _ _.
 
 Section Ops.
 Context {F : Type} (O : FloatOps F).
@@ -340,6 +345,7 @@ Definition to_f (a : val) (k : F -> val) : val :=
    gives NaN, or an infinite result from finite input (math_1 in mathmodule.c) *)
 Definition m1 (fn : libm_fn) (a : val) : val :=
   to_f a (fun x =>
+    if negb (f_dom O fn [x]) then VErr ValueError else
     let r := f_libm O fn [x] in
     if f_isnan O r && negb (f_isnan O x) then VErr ValueError
     else if negb (f_finite O r) && negb (f_isnan O r) && f_finite O x
@@ -502,6 +508,20 @@ Definition py_range (lo hi : val) : val :=
   | _, VErr e => VErr e
   | VInt a, VInt b => VList (zrange_nat a (Z.to_nat (b - a)))
   | _, _ => VErr TypeError
+  end.
+
+Fixpoint zrange_step (start step : Z) (n : nat) : list val :=
+  match n with 0%nat => [] | S n' => VInt start :: zrange_step (start + step) step n' end.
+Definition py_range3 (lo hi st : val) : val :=
+  match norm lo, norm hi, norm st with
+  | VErr e, _, _ => VErr e
+  | _, VErr e, _ => VErr e
+  | _, _, VErr e => VErr e
+  | VInt a, VInt b, VInt s =>
+      if s =? 0 then VErr ValueError
+      else if 0 <? s then VList (zrange_step a s (Z.to_nat ((b - a + s - 1) / s)))
+      else VList (zrange_step a s (Z.to_nat ((a - b - s - 1) / (- s))))
+  | _, _, _ => VErr TypeError
   end.
 
 (* sorted() on a list of numbers: insertion sort with Python's < *)
